@@ -40,7 +40,7 @@ func c09Jobs(tier string, seed uint64, n int) []c09Job {
 	if n == 0 {
 		n = 4000
 		if tier == "thorough" {
-			n = 150000
+			n = 60000
 		}
 	}
 	var jobs []c09Job
@@ -49,7 +49,7 @@ func c09Jobs(tier string, seed uint64, n int) []c09Job {
 	}
 	nb, na, nm, nc := n*46/100, n*36/100, n*2/100, n*4/100
 	if tier == "thorough" {
-		nm, nc = 3000, 9000
+		nm, nc = 1200, 3000
 	}
 	// the model / cycle cases carry whole schemas and documents into Coq: spread them evenly
 	// over the cheap ones so that every Coq shard gets its share
@@ -455,7 +455,9 @@ func c09MakeInput(j c09Job) *c09Input {
 	case "model":
 		return &c09Input{Entry: "model", Schema: "gen", Note: fmt.Sprintf("generated valid request %d over a generated schema", j.Idx)}
 	case "cycle":
-		return &c09Input{Entry: "cycle", Schema: "gen", Note: fmt.Sprintf("generated request %d with injected fragment cycles", j.Idx)}
+		_, doc, _, _, _ := c09CycleDoc(j)
+		return &c09Input{Entry: "cycle", Schema: "gen", Req: []byte(doc.text()), Op: doc.Ops[0].Name,
+			Note: fmt.Sprintf("generated request %d with injected fragment cycles, unvalidated, to PlanQuery / ValidateDocument / Execute", j.Idx)}
 	}
 	return &c09Input{Entry: "none"}
 }
